@@ -351,6 +351,41 @@ let specdoc_case (tabs : string) (fnl : string) (ser : string) : string =
   if !toks <> [] then failwith "specdoc: trailing tokens";
   hex_of_bytes (md_of (tabs = "1") (fnl = "1") d) ^ "|" ^ hex_of_bytes (html_of d)
 
+(* ---------- block parser models over the reader (ListItem.v, LeafBlocks.v) ---------- *)
+let reader_at (src : string) (nlines : string) (adv : string) (pad : string) =
+  let r = ref (new_reader (bytes_of_hex src)) in
+  for _ = 1 to int_of_string nlines do r := r_advance_line !r done;
+  let adv = int_of_string adv and pad = int_of_string pad in
+  if pad > 0 then r := un (r_advance_and_set_padding !r (z_of_int adv) (z_of_int pad))
+  else if adv > 0 then r := un (r_advance !r (z_of_int adv));
+  !r
+let pos_str r = let (l, p) = r_position r in Printf.sprintf "%d,%s" (int_of_z l) (seg_str p)
+let block_case (fn : string) (args : string list) : string =
+  try
+    match fn, args with
+    | "ListItemOpen", [src; nl; adv; pad; last] ->
+      (match un (listItemOpen (z_of_int (int_of_string last)) (reader_at src nl adv pad)) with
+       | None -> "nil"
+       | Some ((off, r'), ch) -> Printf.sprintf "%d:%s@%s" (int_of_z off) (s_of_bool ch) (pos_str r'))
+    | "ThematicBreak", [src; nl; adv; pad] -> s_of_bool (un (thematicBreakOpen (reader_at src nl adv pad)))
+    | "AtxOpen", [src; nl; adv; pad; pos] ->
+      (match un (atxOpenR (reader_at src nl adv pad) (z_of_int (int_of_string pos))) with
+       | None -> "nil"
+       | Some (lv, None) -> Printf.sprintf "%d:-" (int_of_z lv)
+       | Some (lv, Some (a, b)) -> Printf.sprintf "%d:%d,%d" (int_of_z lv) (int_of_z a) (int_of_z b))
+    | "FenceOpen", [src; nl; adv; pad; pos] ->
+      (match un (fenceOpenR (reader_at src nl adv pad) (z_of_int (int_of_string pos))) with
+       | None -> "nil"
+       | Some (_, None) -> "open:-"
+       | Some (_, Some (a, b)) -> Printf.sprintf "open:%d,%d" (int_of_z a) (int_of_z b))
+    | "FenceContinue", [src; nl; adv; pad; ch; indent; flen] ->
+      (match un (fenceContinueR (reader_at src nl adv pad) (n_of_int (int_of_string ch)) (z_of_int (int_of_string indent)) (z_of_int (int_of_string flen))) with
+       | ((true, _), r') -> "close@" ^ pos_str r'
+       | ((false, Some (s, p)), r') -> Printf.sprintf "line:%d,%d@%s" (int_of_z s) (int_of_z p) (pos_str r')
+       | ((false, None), _) -> "?")
+    | _ -> failwith ("block case " ^ fn)
+  with Model_panic s -> s
+
 let eval (fn : string) (args : string list) : string =
   match fn, args with
   | "AstProg", [n; prog] -> let (_, _, o) = run_ast_prog (int_of_string n) prog in o
@@ -383,6 +418,7 @@ let eval (fn : string) (args : string list) : string =
       | _ -> failwith "attr") (split_on ';' attrs) in
     hex_of_bytes (renderAttributes filt al)
   | "SpecDoc", [tabs; fnl; ser] -> specdoc_case tabs fnl ser
+  | ("ListItemOpen" | "ThematicBreak" | "AtxOpen" | "FenceOpen" | "FenceContinue"), _ -> block_case fn args
   | "RenderTree", [cfg; src; tree] ->
     (match renderHTML (parse_rcfg cfg) (bytes_of_hex src) (parse_tree tree) with
      | Ok o -> hex_of_bytes o | Panic -> "PANIC" | OutOfFuel -> "FUEL")
